@@ -122,6 +122,18 @@ Section with_seq_proofs.
     destruct (Range s order None) as [s' pairs]. cbn in *. by rewrite H3.
   Qed.
 
+  (* the order Go really uses inside Map.Range - any enumeration of the keys of
+     read.m after the promotion, dead entries included - is a covering order *)
+  Lemma go_order_covers s order : WF s →
+    order ≡ₚ (map_to_list (read_m (range_promotion s))).*1 → covers (sabs s) order.
+  Proof.
+    intros Hwf Hp. split.
+    - rewrite Hp. apply NoDup_fst_map_to_list.
+    - intros v Hv. rewrite Hp. apply elem_of_sabs in Hv as [x Hx]; [|done].
+      destruct (Range_spec s [] None Hwf) as (_ & _ & H3 & _). destruct (H3 v x Hx) as [e He].
+      apply elem_of_list_fmap. exists (v, e). split; [done|]. by apply elem_of_map_to_list.
+  Qed.
+
   Lemma ss_iface_ok : iface_ok ss_iface WF sabs.
   Proof. split; [exact ss_Has_spec|intros A; exact ss_Range_spec]. Qed.
 
